@@ -170,6 +170,51 @@ def layout_leg(ctx, wd, defs, rng, generate):
     return count
 
 
+def linebreak_leg(ctx, defs, generate):
+    """A comment ends at the line break: texts made of the same words, with the line break that ends a comment at different places,
+    are different definitions (what stands between # and the line break is commented out).  Such pairs are read one after the other,
+    in both orders, in one process: what a definition means does not depend on what was read before."""
+    shape_of = {tuple(d["toks"]): d["shape"] for d in defs}
+    count, shown = 0, 0
+    pairs = []
+    for d in defs:
+        toks = d["toks"]
+        if len(pairs) >= 60:
+            break
+        for i in range(2, len(toks) - 1):
+            # comment after token i-1; variant A ends it at once, variant B only after one more token (which is thereby commented out)
+            if toks[i] in "<>" :
+                continue
+            rest = toks[:i] + toks[i + 1:]
+            if tuple(rest) not in shape_of:
+                continue
+            pairs.append((toks, i, rest))
+            break
+    for n, (toks, i, rest) in enumerate(pairs):
+        for order in (0, 1):
+            tag = f"c{n}o{order}"
+            text_a = " ".join(toks[:i]) + f" # {tag}\n " + " ".join(toks[i:])
+            text_b = " ".join(toks[:i]) + f" # {tag} " + toks[i] + "\n " + " ".join(toks[i + 1:])
+            seq = [(text_a, toks), (text_b, rest)] if order == 0 else [(text_b, rest), (text_a, toks)]
+            for pos, (text, means) in enumerate(seq):
+                count += 1
+                want = top(shape_of[tuple(means)])
+                try:
+                    got = top(real_shape(generate(text)))
+                except Exception as exc:  # noqa: BLE001
+                    got = f"raised {exc!r}"
+                if got != want and shown < 10:
+                    shown += 1
+                    ctx.violation({"check": "sfdl-linebreak", "clause": "meaning-depends-on-what-was-read-before" if pos == 1 else "shape-differs", "text": text,
+                                   "read_before": seq[0][0] if pos == 1 else None, "got": got, "want": want,
+                                   "what": f"definition {text!r} (= {' '.join(means)!r}){' read after ' + repr(seq[0][0]) if pos == 1 else ''} is read as "
+                                           f"{json.dumps(got)[:140]} instead of {json.dumps(want)[:140]}"})
+    ctx.extra["linebreak_pairs"] = len(pairs)
+    if len(pairs) < 10:
+        raise Machinery(f"too few line-break pairs: {len(pairs)}")
+    return count
+
+
 def run(ctx: Ctx):
     from secsgem.secs.functions.sfdl_tokenizer import SFDLParseError
     from secsgem.secs.variables.functions import generate
@@ -222,6 +267,7 @@ def run(ctx: Ctx):
                 ctx.violation({"check": "sfdl-reject", "clause": "missing-closing-bracket-accepted" if kind == "close" else "unknown-item-accepted",
                                "text": text, "what": f"malformed definition {' '.join(toks)!r} ({kind}) was accepted: {safe_shape(obj)}"})
     nlay = layout_leg(ctx, wd, defs, rng, generate)
+    nlay += linebreak_leg(ctx, defs, generate)
     ctx.evaluations += n + nrej + nlay
     ctx.nontrivial += len(defs) + nrej
     ctx.traces += n + nrej
